@@ -839,6 +839,14 @@ namespace awkward {
           + stream.Peek() + std::string("\'")
           + FILENAME(__LINE__));
       }
+      else if (reader.GetParseErrorCode() != rj::kParseErrorDocumentEmpty) {
+        // the stream ended inside a scalar token (unterminated string,
+        // "tru", "-", "1.", "1e"): no handler call was made, but this is not
+        // trailing whitespace either
+        throw std::invalid_argument(
+            std::string("incomplete JSON object at the end of the stream")
+            + FILENAME(__LINE__));
+      }
     }
 
     ContentPtr obj = handler.snapshot();
